@@ -730,6 +730,67 @@ def gen_calc_glue():
     out("def volumeBaseDeps : List (String × Bool × List String) :=\n  [" + ",\n   ".join(
         f"({q(n)}, {str(z).lower()}, {lstrs(list(dict.fromkeys(r)))})" for n, z, r in rows) + "]\n")
 
+    # ---------------------------------------------------------------- attribute lookup: what normal lookup finds before `__getattr__`
+    def is_self_attr(n): return isinstance(n, ast.Attribute) and isinstance(n.value, ast.Name) and n.value.id == "self"
+    init_attrs, later_attrs, lazy_caches, self_reads, foreign, dynamic = [], [], [], [], [], []
+    for cname, c in classes.items():
+        tab = fns_of(cname)
+        ia, la, sr = [], [], []
+        for name, f in tab.items():
+            top = set()
+            if name == "__init__":
+                for st in f.body:                                   # unconditional top-level `self.<x> = …` of __init__: there from construction on
+                    if isinstance(st, ast.Assign):
+                        for t in st.targets:
+                            if is_self_attr(t):
+                                top.add(id(t))
+                                if t.attr not in ia: ia.append(t.attr)
+            reads = []
+            for n in sorted((n for n in ast.walk(f) if isinstance(n, (ast.Attribute, ast.Call, ast.Name, ast.Delete))),
+                            key=lambda n: (getattr(n, "lineno", 0), getattr(n, "col_offset", 0))):
+                if isinstance(n, ast.Attribute):
+                    if isinstance(n.ctx, (ast.Store, ast.Del)):
+                        if is_self_attr(n):
+                            if id(n) not in top and n.attr not in la: la.append(n.attr)
+                            if isinstance(n.ctx, ast.Del): dynamic.append(f"{cname}.{name}: del {src(n)}")
+                        else: foreign.append(f"{cname}.{name}: {src(n)}")
+                    elif is_self_attr(n) and n.attr not in reads: reads.append(n.attr)
+                    if n.attr in ("__dict__", "__setattr__", "__delattr__", "__getattribute__", "__class__", "__slots__"):
+                        dynamic.append(f"{cname}.{name}: {src(n)}")
+                elif isinstance(n, ast.Call) and isinstance(n.func, ast.Name):
+                    if n.func.id in ("setattr", "delattr", "vars", "globals", "locals", "exec", "eval"):
+                        dynamic.append(f"{cname}.{name}: {src(n)[:60]}")
+                    if n.func.id in ("getattr", "hasattr") and n.args and isinstance(n.args[0], ast.Name) and n.args[0].id == "self":
+                        if len(n.args) > 1 and isinstance(n.args[1], ast.Constant) and isinstance(n.args[1].value, str):
+                            if n.args[1].value not in reads: reads.append(n.args[1].value)
+                        else: dynamic.append(f"{cname}.{name}: {src(n)[:60]}")
+            sr.append((cname, name, reads))
+        init_attrs.append((cname, ia)); later_attrs.append((cname, la)); self_reads += sr
+        lazy_caches.append((cname, ["_" + n for n, f in tab.items() if decorator_kind(f) == "LazyProperty"]))
+    out("/-- attribute lookup.  Per class: the attributes `self.<x> = …` assigned unconditionally at the top level of `__init__` (there from\n"
+        "construction on); the attributes assigned on `self` anywhere else in the class (there from some moment on); the cache attributes\n"
+        "`_<name>` that `lazy_property.LazyProperty.__get__` sets on the instance on the first read of each LazyProperty -/")
+    out("def initAttrs : List (String × List String) := [" + ", ".join(f"({q(a)}, {lstrs(b)})" for a, b in init_attrs) + "]")
+    out("def laterAttrs : List (String × List String) := [" + ", ".join(f"({q(a)}, {lstrs(b)})" for a, b in later_attrs) + "]")
+    out("def lazyCacheAttrs : List (String × List String) := [" + ", ".join(f"({q(a)}, {lstrs(b)})" for a, b in lazy_caches) + "]\n")
+    out("/-- attribute stores / deletions on an object other than `self` inside the classes, and uses of `setattr`, `delattr`, `vars`, `__dict__`,\n"
+        "`__setattr__`, `__getattribute__`, `__class__`, `__slots__`, `exec`, `eval`, `getattr(self, <not a literal>)`: (where: what) -/")
+    out(f"def foreignAttrStores : List String := {lstrs(foreign)}")
+    out(f"def dynamicAttrUses : List String := {lstrs(dynamic)}\n")
+    out("/-- every attribute read through `self` (`self.<x>` loads, `getattr(self, '<x>')`), per function: (class, function, names in source order) -/")
+    out("def selfReads : List (String × String × List String) :=\n  [" + ",\n   ".join(f"({q(a)}, {q(b)}, {lstrs(r)})" for a, b, r in self_reads) + "]\n")
+    pg = need_fn(fns_of("CijPressureBaseInterface"), "CijPressureBaseInterface", "__getattr__")
+    W = "CijPressureBaseInterface.__getattr__"
+    if [a.arg for a in pg.args.args] != ["self", "name"] or pg.args.vararg or pg.args.kwarg or pg.args.defaults:
+        raise T.TieBroken(f"{W}: signature is not (self, name)")
+    if len(pg.body) != 3: raise T.TieBroken(f"{W}: body is not `x = getattr(self.calculator.<interface>, name); y = self.<conv>(x); return y`")
+    e1 = match_stmt("__X__ = getattr(self.calculator.__IF__, name)", pg.body[0], W)
+    e2 = match_stmt(f"__Y__ = self.__CONV__({want_name(e1['X'], W)})", pg.body[1], W)
+    match_stmt(f"return {want_name(e2['Y'], W)}", pg.body[2], W)
+    out("/-- `CijPressureBaseInterface.__getattr__(self, name)`: `x = getattr(self.calculator.<interface>, name); y = self.<conv>(x); return y` for EVERY name\n"
+        "that reaches it -/")
+    out(f"def pressureGetattr : String × String := ({q(e1['IF'])}, {q(e2['CONV'])})\n")
+
     # ---------------------------------------------------------------- canonical text of what is not data
     pins = {
         ("Calculator", "_load"):
